@@ -183,7 +183,7 @@ def judge(case) -> Verdict:
 @st.composite
 def case_st(draw, tier):
     acl = draw(G.acl_st(min_items=1, max_items=12, kmax=2, groups=True, members=True, seqs=False,
-                        dup_headings=True, group_by=False, neq_multi=True))
+                        dup_headings=True, group_by=False, neq_multi=True, comma_headings=True))
     return {"acl": acl, "prefix": acl["prefix"], "perm": draw(st.lists(st.integers(0, 50), min_size=1, max_size=8)),
             "how": draw(st.sampled_from(["sortkey", "sortkey", "reverse", "popinsert"])),
             "start": draw(st.sampled_from([1, 10, 100])), "step": draw(st.sampled_from([1, 5, 10]))}
